@@ -208,6 +208,19 @@ def run_stream(job):
 _BTTOK = re.compile(r" (u8|u16|u32|u64)(?= )")
 
 
+def xbt_class(key):
+    """input class of a cross-block-type disagreement (matched against known_findings.json like the driver's class ids)"""
+    t = key.split()
+    # D6: cfloat operator-- on the all-ones encoding sets a bit above nbits when the block is wider than nbits
+    if len(t) >= 7 and t[0] == "cfloat" and t[5] == "dec":
+        try:
+            if int(t[6], 16) == (1 << int(t[1])) - 1:
+                return "xbt.cfloat.dec.allones"
+        except ValueError:
+            pass
+    return "-"
+
+
 def run_xbt(job, env, t0):
     """cross-block-type comparison: identical streams from the instantiations for each block type must print identical
     transcripts once the block-type token is masked"""
@@ -227,7 +240,7 @@ def run_xbt(job, env, t0):
         return t
     ref = outs[0]
     rt = table(ref[2])
-    n = 0; bad = 0
+    n = 0; bad = 0; percls = {}
     for name, rc, lines in outs[1:]:
         if rc != 0 or ref[1] != 0:
             res["hrc"] = rc or ref[1]
@@ -236,10 +249,12 @@ def run_xbt(job, env, t0):
                 n += 1
                 if rt[k] != v:
                     bad += 1
-                    if bad <= 50:
-                        res["S"].append(f"S 0 class=- modeldiff=false reason=result depends on the block type: {ref[0]} gives [{rt[k]}], {name} gives [{v}] | {k} => {v}")
-    if bad:
-        res["cls"]["-"] = bad
+                    c = xbt_class(k)
+                    percls[c] = percls.get(c, 0) + 1
+                    if percls[c] <= 50:
+                        res["S"].append(f"S 0 class={c} modeldiff=false reason=result depends on the block type: {ref[0]} gives [{rt[k]}], {name} gives [{v}] | {k} => {v}")
+    for c, k in percls.items():
+        res["cls"][c] = k
     res["N"] = dict(total=n, ok=n - bad, diff=0, specfail=bad, bad=0, distinct=n)
     res["tags"] = {"cross-block-type-comparisons": n}
     res["first"] = ref[2][:1]
